@@ -551,9 +551,17 @@ func (w *world) checkAll() []*violation {
 			v = w.known("C07-setop-decimal-scale", numCross, v, func() *violation { return w.opSet(op, uKey) })
 			add(v)
 		}
-		add(w.opInSubquery(false))
-		if !w.skipRegion("C07-insubquery-left-conversion", w.c.L.ddl != w.c.R.ddl && w.someLDoesNotFitR()) {
-			add(w.opInSubquery(true))
+		// WHERE l IN (SELECT r ...) is planned as a semi-join, or (larger tables) as a hash join
+		// over Distinct(SELECT r): that Distinct hashes without the column type, so byte-different
+		// '='-equal r values stay apart and every match is returned once per such value
+		// (C07-distinct-collation). Prediction: multiplicity = number of byte-distinct matching r.
+		rClash := false
+		for i := 0; i < w.n; i++ {
+			for j := 0; j < w.n; j++ {
+				if w.rN[i] != "N" && w.rN[j] != "N" && w.rr[i][j] == tT && w.rR[i] != w.rR[j] {
+					rClash = true
+				}
+			}
 		}
 		crossClash := false
 		for i := 0; i < w.n; i++ {
@@ -562,6 +570,13 @@ func (w *world) checkAll() []*violation {
 					crossClash = true
 				}
 			}
+		}
+		// ... and that hash join is subject to C07-hashjoin-collation like the hinted one below
+		if !w.skipRegion("C07-hashjoin-collation", strFam && crossClash && w.c.L.ddl != w.c.R.ddl) {
+			add(w.known("C07-distinct-collation", strFam && rClash, w.opInSubquery(false), w.inSubqueryOverByteDistinct))
+		}
+		if !w.skipRegion("C07-insubquery-left-conversion", w.c.L.ddl != w.c.R.ddl && w.someLDoesNotFitR()) {
+			add(w.opInSubquery(true))
 		}
 		if crossClash {
 			nontrivial = true
@@ -1063,6 +1078,31 @@ func (w *world) opInSubquery(proj bool) *violation {
 	}
 	if !sameIDs(got, want) {
 		return &violation{op: op, sql: q, msg: fmt.Sprintf("IN is TRUE for row ids %s, 'l = r' is TRUE for some r exactly for row ids %s", showIDs(got), showIDs(want))}
+	}
+	return nil
+}
+
+// inSubqueryOverByteDistinct checks the filter form against the prediction of the
+// C07-distinct-collation mechanism: row i is returned once per byte-distinct r value with
+// l_i = r TRUE.
+func (w *world) inSubqueryOverByteDistinct() *violation {
+	q := "SELECT id FROM t WHERE l IN (SELECT r FROM t)"
+	rows, _, ok := w.run(q)
+	if !ok {
+		return nil
+	}
+	want := map[int]int{}
+	for i := 0; i < w.n; i++ {
+		seen := map[string]bool{}
+		for j := 0; j < w.n; j++ {
+			if w.lr[i][j] == tT && !seen[w.rR[j]] {
+				seen[w.rR[j]] = true
+				want[i+1]++
+			}
+		}
+	}
+	if got := idSet(rows, 0); !sameIDs(got, want) {
+		return &violation{op: "IN subquery (filter)", sql: q, msg: fmt.Sprintf("IN returns row ids %s, the byte-distinct prediction is %s", showIDs(got), showIDs(want))}
 	}
 	return nil
 }
